@@ -160,7 +160,7 @@ theorem seqAfterUpdate_tok {s s' : St} {m : UpdMsg} {b : Bool} (e : seqAfterUpda
   · rename_i prop hg
     dsimp only at e
     have hpa : prop.addr = m.sender := getSeq_addr hg
-    have f1 : TokFrame s (setSeq s { prop with dishonor := prop.dishonor - min s.p.dishonorSU prop.dishonor }) :=
+    have f1 : TokFrame s (setSeq s { prop with dishonor := prop.dishonor - min s.sqp.dishonorSU prop.dishonor }) :=
       TokFrame.setSeq (q0 := prop) (by show getSeq s prop.addr = some prop; rw [hpa]; exact hg) rfl
     split at e
     · exact f1.trans (onProposerLastBlock_tok e)
@@ -450,15 +450,15 @@ theorem unbond_withdrawn {s s' : St} {a : Addr} (e : unbond s a = .ok s') : With
             · cases e
             · injection e with e; subst e
               -- the proposer starts its notice period: nothing is paid
-              have hg0 : getSeq { s with nq := insertSorted ltPair (s.t + s.p.noticePeriod, a) s.nq } q.addr = some q := by
+              have hg0 : getSeq { s with nq := insertSorted ltPair (s.t + s.sqp.noticePeriod, a) s.nq } q.addr = some q := by
                 rw [hqa]; exact hg
-              refine ⟨?_, ⟨q, { q with optedIn := false, notice := some (s.t + s.p.noticePeriod) }, hg, ?_, Nat.le_refl _, ?_, ?_⟩, ?_, rfl⟩
+              refine ⟨?_, ⟨q, { q with optedIn := false, notice := some (s.t + s.sqp.noticePeriod) }, hg, ?_, Nat.le_refl _, ?_, ?_⟩, ?_, rfl⟩
               · intro b hb
-                rw [getSeq_setSeq_other (show ({ q with optedIn := false, notice := some (s.t + s.p.noticePeriod) } : Seq).addr ≠ b by
+                rw [getSeq_setSeq_other (show ({ q with optedIn := false, notice := some (s.t + s.sqp.noticePeriod) } : Seq).addr ≠ b by
                   show q.addr ≠ b; rw [hqa]; exact Ne.symm hb)]
                 rfl
               · rw [← hqa]
-                exact getSeq_setSeq_self (q := { q with optedIn := false, notice := some (s.t + s.p.noticePeriod) }) hg0
+                exact getSeq_setSeq_self (q := { q with optedIn := false, notice := some (s.t + s.sqp.noticePeriod) }) hg0
               · show getBal s.bal a = getBal s.bal a + (q.tokens - q.tokens); omega
               · show s.modBal + (q.tokens - q.tokens) = s.modBal; omega
               · intro b _; rfl
@@ -740,13 +740,13 @@ theorem slashLiveness_burnt {s s1 : St} {r : Rollapp} (e : slashLiveness s r = .
           by_cases hba : q2.addr = b
           · subst hba
             have hg2 : getSeq s2 q2.addr = some q := by rw [getSeq_congr hseqs, hq2a, hqa]; exact hg
-            rw [getSeq_setSeq_self (q := { q2 with dishonor := q2.dishonor + s2.p.dishonorL }) (q0 := q) hg2] at hb
+            rw [getSeq_setSeq_self (q := { q2 with dishonor := q2.dishonor + s2.sqp.dishonorL }) (q0 := q) hg2] at hb
             cases hb
             refine ⟨q, by rw [hq2a, hqa]; exact hg, ?_, ?_⟩
             · show q2.tokens ≤ q.tokens; exact hle
             · show q.tokens + s.burned ≤ q2.tokens + s2.burned
               rw [hburn]; omega
-          · have : ({ q2 with dishonor := q2.dishonor + s2.p.dishonorL } : Seq).addr ≠ b := hba
+          · have : ({ q2 with dishonor := q2.dishonor + s2.sqp.dishonorL } : Seq).addr ≠ b := hba
             rw [getSeq_setSeq_other this, getSeq_congr hseqs] at hb
             exact ⟨qb, hb, Nat.le_refl _, by show qb.tokens + s.burned ≤ qb.tokens + s2.burned; rw [hburn]; omega⟩
 
@@ -771,10 +771,11 @@ theorem endBlock_burnt (s : St) (fails : List (Nat × Nat)) : Burnt s (endBlock 
 
 -- ---------------------------------------------------------------- the classification, one step
 
-/-- every op other than a withdrawal, a fraud punishment or a block end lowers no bond -/
+/-- every op other than a withdrawal, a fraud punishment, a punish proposal or a block end lowers no bond -/
 theorem apply_noDec {s s' : St} {o : Op} (e : apply s o = .ok s')
     (h1 : ∀ a amt, o ≠ .bondDec a amt) (h2 : ∀ a, o ≠ .unbond a)
-    (h3 : ∀ au ra hh rev a rw, o ≠ .fraud au ra hh rev (some a) rw) (h4 : ∀ f, o ≠ .end_ f) : NoDec s s' := by
+    (h3 : ∀ au ra hh rev a rw, o ≠ .fraud au ra hh rev (some a) rw) (h4 : ∀ f, o ≠ .end_ f)
+    (h5 : ∀ au a rw, o ≠ .punish au a rw) : NoDec s s' := by
   cases o with
   | createRollapp id owner mb =>
     simp only [apply] at e
@@ -803,6 +804,13 @@ theorem apply_noDec {s s' : St} {o : Op} (e : apply s o = .ok s')
     · exact tf.noDec
     · subst hp; exact absurd rfl (h3 au ra hh rev a rw)
   | obsolete au vs => exact (markObsolete_tok e).noDec
+  | punish au a rw => exact absurd rfl (h5 au a rw)
+  | transferOwner sg ra' no =>
+    obtain ⟨r, hg, _, _, _, rfl⟩ := transferOwner_ok e
+    exact (TokFrame.of_seqs rfl).noDec
+  | setSeqParams au sp =>
+    obtain ⟨_, hnp, _, rfl⟩ := setSeqParams_ok e
+    exact (TokFrame.of_seqs rfl).noDec
   | begin_ dt => simp only [apply] at e; injection e with e; subst e; exact (TokFrame.of_seqs (beginBlock_seqs' s dt)).noDec
   | end_ f => exact absurd rfl (h4 f)
 
